@@ -382,7 +382,7 @@ impl Property for C03 {
         prop_oneof![3 => direct, 2 => streams].boxed()
     }
     fn cases(tier: Tier) -> u32 {
-        tier.pick(12_000, 250_000)
+        tier.pick(80_000, 400_000)
     }
     fn exhaustive(_tier: Tier, sink: &mut dyn FnMut(Scenario)) -> Vec<String> {
         let mut forms = bin_forms();
